@@ -16,7 +16,7 @@ RULE = ('histories: 4-9 write operations over a pool of 2-4 rich caption sets (s
         'absolute-unit layout at caption / span / language / set level, same class names defined differently) '
         'written by writers of one class that differ only in the video size. Fault cases: for one (writer, set) the distinct pycaption '
         'source lines reached during write() are traced and an InjectedFault is raised at each (quick: a '
-        'sample of 40; thorough: all), the input being compared after every fault. Non-trivial: a history with '
+        'sample of 40; thorough: all), the input being compared after every fault. Histories with a near copy of an earlier set; echo probes per writer. Non-trivial: a history with '
         '>= 2 writes on one writer object, or a fault case.')
 ANCHORS = ['pycaption.srt:SRTWriter.write', 'pycaption.webvtt:WebVTTWriter.write',
            'pycaption.dfxp.base:DFXPWriter.write', 'pycaption.sami:SAMIWriter.write',
